@@ -37,11 +37,12 @@ class Boom(Exception):
     pass
 
 
-def frame_re(messages):
-    return re.compile(r" (?:%s) (?:%s)\Z" % ("|".join(re.escape(v) for v in VALUES), "|".join(re.escape(m) for m in messages)))
+def frame_re(messages, verbose=False):
+    return re.compile(r" (?:%s) (?:%s)%s\Z" % ("|".join(re.escape(v) for v in VALUES), "|".join(re.escape(m) for m in messages),
+                                              (r" \(%s\)" % ELAPSED) if verbose else ""))
 
 
-def run_auto(program, schedule):
+def run_auto(program, schedule, verbose=False):
     from clikit.api.io import Output
     from clikit.formatter import AnsiFormatter
     from clikit.ui.components import progress_indicator as pimod
@@ -55,6 +56,11 @@ def run_auto(program, schedule):
     ind = None
     try:
         out = Output(stream, AnsiFormatter(forced=True))
+        if verbose:
+            # the format with the elapsed time: a frame is assembled from several pieces with a clock read in
+            # between, and that clock read is a scheduling point here
+            out.set_verbosity(1)
+            pimod.time.point_on_time = True
         ind = pimod.ProgressIndicator(out, interval=100)
         try:
             with ind.auto(START, END):
@@ -113,7 +119,7 @@ def judge_auto(ctx, part, case, res):
         return False
     # replay the writes on a terminal: never a mixture of two frames on the current line
     messages = [START, END] + list(MSGS.values())
-    rx = frame_re(messages)
+    rx = frame_re(messages, bool(case.get("verbose")))
     t = term.Terminal(200)
     for i, (tid, now, text) in enumerate(res["log"]):
         try:
@@ -132,14 +138,18 @@ def judge_auto(ctx, part, case, res):
     if not raising:
         lines = [l for l in t.lines() if l.strip()]
         want = " %s %s" % (VALUES[0], END)
-        if not lines or lines[-1] != want:
+        if case.get("verbose"):
+            ok_last = bool(lines) and re.match(re.escape(want) + r" \(%s\)\Z" % ELAPSED, lines[-1]) is not None
+        else:
+            ok_last = bool(lines) and lines[-1] == want
+        if not ok_last:
             fail("C19.last-frame", want, lines[-3:], sig="last-frame")
             return False
     return True
 
 
 def check_auto(ctx, case, part="auto-random"):
-    res = run_auto([tuple(o) for o in case["program"]], case["schedule"])
+    res = run_auto([tuple(o) for o in case["program"]], case["schedule"], bool(case.get("verbose")))
     n_pre = sched.preemptions([d[1] for d in res["decisions"]], res["decisions"])
     ctx.case(part, case, n_pre >= 1 or any(o[0] in ("raise", "raise-ki") for o in case["program"]),
              ["c19:preemptions-%d" % min(n_pre, 3)])
@@ -184,6 +194,36 @@ def shard_enum(ctx, arg):
                 break
         if runs >= max_runs:
             ctx.inconclusive.append("auto-enum: run budget %d hit for program %r" % (max_runs, program))
+
+
+VERBOSE_PROGRAMS = [[["msg", "M1"]], [["work", 0.05], ["msg", "M1"]], [["msg", "M1"], ["work", 0.05]], [["msg", "M2"], ["msg", "M1"]], []]
+
+
+def shard_enum_verbose(ctx, arg):
+    """The verbose format (with the elapsed time), clock reads as scheduling points: a frame must come out whole
+    also when its thread is preempted while it is being put together."""
+    pi, bound, max_runs = arg
+    program = VERBOSE_PROGRAMS[pi]
+    prog = [tuple(o) for o in program]
+    state = {}
+
+    def run_fn(prefix):
+        res = run_auto(prog, prefix, True)
+        state["res"] = res
+        return res["decisions"]
+
+    runs = 0
+    for prefix, decisions in sched.explore(run_fn, bound, max_runs):
+        runs += 1
+        res = state["res"]
+        full = [d[1] for d in decisions]
+        case = {"program": program, "schedule": full, "verbose": True}
+        n_pre = sched.preemptions(full, decisions)
+        ctx.case("auto-enum", case, n_pre >= 1, ["c19:verbose-preemptions-%d" % min(n_pre, 3)], distinct_by_construction=True)
+        if not judge_auto(ctx, "auto-enum", case, res):
+            break
+    if runs >= max_runs:
+        ctx.inconclusive.append("auto-enum (verbose): run budget %d hit for program %r" % (max_runs, program))
 
 
 # ------------------------------------------------------------------------------------------ manual
@@ -326,6 +366,7 @@ def run(ctx):
     quick = ctx.tier == "quick"
     maxlen, bound, max_runs = (3, 2, 20000) if quick else (4, 3, 200000)
     ctx.parallel("shard_enum", [(i, 16, maxlen, bound, max_runs) for i in range(16)])
+    ctx.parallel("shard_enum_verbose", [(i, 2 if quick else 3, 20000 if quick else 100000) for i in range(len(VERBOSE_PROGRAMS))])
     ctx.exhaustive("auto-enum", not ctx.inconclusive,
                    "all schedules with <= %d preemptions for every program of <= %d ops" % (bound, maxlen))
     ctx.hyp_sharded("auto-random", 3000 if quick else 100000, salt=1)
